@@ -175,12 +175,14 @@ CompressV6(h) == LET r == BestRun(h) IN
                  IF r[2] = 0 THEN FmtHextets(h, 1, 8)
                  ELSE FmtHextets(h, 1, r[1] - 1) \o <<COLON, COLON>> \o FmtHextets(h, r[1] + r[2], 8)
 
+\* parse_ipv6_hostname admits only these inside the brackets (address characters, and RFC 6874 zone characters)
+V6Char(c) == IsDigit(c) \/ c \in 65..90 \/ c \in 97..122 \/ c \in {COLON, DOT, PCT, 45, 95, 126}
 Ipv6Compressed(text) ==
   LET sp    == Partition(text, PCT)
       addr  == sp[1]
       scope == sp[3]
-      \* (brackets inside the literal are refused by parse_ipv6_hostname itself: ipaddress takes any text as a zone)
-      scopeOK == (~sp[2] \/ (Len(scope) > 0 /\ ~Has(scope, PCT))) /\ ~Has(text, LBR) /\ ~Has(text, RBR)
+      \* (parse_ipv6_hostname itself refuses other characters: ipaddress takes any text as a zone)
+      scopeOK == (~sp[2] \/ (Len(scope) > 0 /\ ~Has(scope, PCT))) /\ \A i \in 1..Len(text) : V6Char(text[i])
       ps0   == Split(addr, COLON)
       v4    == IF Len(ps0) > 0 /\ Has(ps0[Len(ps0)], DOT) THEN StrictIpv4(ps0[Len(ps0)]) ELSE [ok |-> FALSE]
       hasV4 == Len(ps0) > 0 /\ Has(ps0[Len(ps0)], DOT)
@@ -653,6 +655,10 @@ HostCat == <<
   H(S("[fe80::1%[eth0]"), "ipv6-zone-bracket", 0),
   H(S("[fe80::1%a]b]"), "ipv6-zone-bracket", 0),
   H(S("[[::1]]"), "ipv6-zone-bracket", 0),
+  H(S("[fe80::1%a b]"), "ipv6-zone-space", 0),
+  H(S("[fe80::1%a") \o <<1>> \o S("b]"), "ipv6-zone-control", 0),
+  H(S("[fe80::1%a") \o <<EAC>> \o S("]"), "ipv6-zone-nonascii", 0),
+  H(S("[fe80::1%a\\b]"), "ipv6-zone-backslash", 0),
   \* ---- forbidden characters, empty
   H(S("a b"), "forbidden-char", 0),
   H(S("a%41"), "forbidden-char", 0),
